@@ -168,6 +168,24 @@ int main (int argc, char** argv)
   }
 
 #ifndef SYMX_SYMBOLIC
+  // every history of basis settings (length <= 4 over linear, circular and three different elliptical bases), every
+  // derived function evaluated after every step: the pictures must agree in the state the process is in now, whatever it
+  // computed in earlier states (process-wide caches keyed too coarsely would show here)
+  fn ("derived_history_plain", [] {
+    typedef std::complex<double> cdd;
+    Jones<double> J (cdd (1, 2), cdd (-3, 0.5), cdd (0.25, -1), cdd (2, 2)), G (cdd (0.5, -1), cdd (1, 1), cdd (-2, 0.25), cdd (0, 3)); Stokes<double> S (1.75, 0.5, -0.25, 1.125);
+    Stokes<cdd> Sc (cdd (1.75, 0.5), cdd (0.5, -1), cdd (-0.25, 2), cdd (1.125, 0.25));
+    auto setb = [] (int k) { if (k == 0) Pauli::basis().set_basis (Signal::Linear); else if (k == 1) Pauli::basis().set_basis (Signal::Circular);
+                             else if (k == 2) Pauli::basis().set_basis (0.3, 0.2); else if (k == 3) Pauli::basis().set_basis (-0.7, 0.4); else Pauli::basis().set_basis (1.1, -0.3); };
+    for (int a=0; a<5; a++) for (int b=0; b<5; b++) for (int c=0; c<5; c++) for (int d=0; d<5; d++) { int seq[4] = { a, b, c, d };
+      for (int k=0; k<4; k++) { setb (seq[k]); char what[200]; snprintf (what, 200, "history %d%d%d%d, after step %d: ", a, b, c, d, k + 1);
+        Stokes<double> back = coherency (convert (S)); for (unsigned i=0; i<4; i++) expect (std::string (what) + "coherency (convert S) = S", back[i], S[i], 1e-12);
+        Stokes<cdd> backc = complex_coherency (convert (Sc)); for (unsigned i=0; i<4; i++) expect (std::string (what) + "complex coherency (convert S) = S", backc[i], Sc[i], 1e-12);
+        Matrix<4,4,double> M = Mueller (J), MG = Mueller (G), MJG = Mueller (J, G); Jones<double> JG = J + G; Matrix<4,4,double> MS = Mueller (JG);
+        Stokes<double> T = transform (S, J); Vector<4,double> MSv = M * S; Stokes<double> C = coherency (J * convert (S) * herm (J));
+        for (unsigned i=0; i<4; i++) { expect (std::string (what) + "Mueller (J) S = transform (S, J)", MSv[i], T[i], 1e-11); expect (std::string (what) + "transform (S, J) = coherency (J rho J^dagger)", T[i], C[i], 1e-11);
+          for (unsigned j=0; j<4; j++) expect (std::string (what) + "Mueller (J + G) = Mueller (J) + Mueller (J, G) + Mueller (G)", MS[i][j], M[i][j] + MJG[i][j] + MG[i][j], 1e-10); } } }
+    Pauli::basis().set_basis (Signal::Linear); }, 1);
   // all element magnitudes: conversions are linear in the Stokes vector, the transformation by J is linear in S and
   // quadratic in J, the Mueller matrix quadratic in J -- scaling by powers of two must scale the results exactly
   fn ("homogeneity_plain", [] {
